@@ -1,0 +1,49 @@
+package sio
+
+import (
+	"github.com/karagenc/socket.io-go/internal/sync"
+)
+
+// packetDispatcher hands decoded packets to the application one at a time and in the
+// order they were received, separately for each key (the namespace of the packet).
+// Packets with different keys do not wait for each other.
+//
+// The zero value is ready to use.
+type packetDispatcher struct {
+	mu sync.Mutex
+	// Functions waiting for their turn. A key is present for as long as
+	// a goroutine is running the functions of that key.
+	queues map[string][]func()
+}
+
+func (d *packetDispatcher) add(key string, f func()) {
+	d.mu.Lock()
+	if d.queues == nil {
+		d.queues = make(map[string][]func())
+	}
+	q, running := d.queues[key]
+	d.queues[key] = append(q, f)
+	d.mu.Unlock()
+
+	if !running {
+		go d.run(key)
+	}
+}
+
+func (d *packetDispatcher) run(key string) {
+	for {
+		d.mu.Lock()
+		q := d.queues[key]
+		if len(q) == 0 {
+			delete(d.queues, key)
+			d.mu.Unlock()
+			return
+		}
+		f := q[0]
+		q[0] = nil
+		d.queues[key] = q[1:]
+		d.mu.Unlock()
+
+		f()
+	}
+}
